@@ -147,7 +147,7 @@ PROPS = {
     ),
     "C16": dict(
         level="exploration", components=SCHED_COMPONENTS("core/util (trie, node stores, change collector)"), sched=True, race=True,
-        quick=dict(runs=14000, race_runs=5000, budget_s=60), thorough=dict(runs=800000, race_runs=250000, budget_s=1500),
+        quick=dict(runs=10000, race_runs=3500, budget_s=50), thorough=dict(runs=800000, race_runs=250000, budget_s=1500),
         rule="an instrumented copy of the current tree (yield points in merkle_patricia_trie.go, mpt_nodedb.go, mpt_node_change.go; every Lock/RLock/Unlock module-wide routed through the scheduler, the real mutexes stay the only lock state). Setup: a trie on a memory / layered / memory-over-persistent store with 0-4 entries over a pool of 2-4 paths (prefixes of one another); in 1/5 of the runs reachable nodes are then removed from the store (node loss) and the run continues on a fresh trie object. Scheduled phase: 2-4 tasks with 2-6 operations each on the SAME trie: Insert (unique values), Delete, GetNodeValueRaw, Iterate, GetChanges/GetDeletes/GetChangeCount, GetMissingNodeKeys, HasMissingNodes, SaveChanges to a PNodeDB, GetRoot. Oracles: (a) the history (invoke/return stamped with the scheduler's event sequence) plus a final read-all is checked with porcupine against a sequential map model (Illegal = violation, Unknown = inconclusive, counted, never reported); (b) the final root equals the independent root of the final content; (c) -race build under the same seeded schedules: any report inside the module is a violation; (d) no panic, no deadlock; lossy runs: reads never return a wrong value. Non-trivial: >= 1 context switch",
         state_measure="distinct interleavings: digest of the task chosen at every scheduler decision with more than one enabled task (+ total steps)",
         assumptions=[ROCKS_ASSUMPTION, "goroutines the code spawns itself (SaveChanges' writer) are not scheduled tasks: they run while their parent waits and every other task is parked", "writer preference of sync.RWMutex is not modelled (more schedules than the runtime allows, none that a correct program may exclude)"],
